@@ -449,6 +449,40 @@ func forkVariants(b *Builder, con interface{ Attr(string) string }, p *geval.Pat
 	tmp0 := &Instance{Path: p, Names: map[*geval.SymType]string{}, B: b, imports: map[string]string{}, Callees: map[string]*geval.Hole{}, Helpers: map[string]*geval.Hole{}}
 	for _, f := range tmp0.pickGuarded(c.AttrList("o-fork"), genArgs, p.Decisions) {
 		ws := strings.Fields(f)
+		if len(ws) == 3 && ws[0] == "usermethod" {
+			// usermethod <lookup> <typeref>: whether the named type declares the
+			// method the plugin dispatches to, where the generator did not look
+			tmp := &Instance{Path: p, Names: map[*geval.SymType]string{}, B: b, imports: map[string]string{}, Callees: map[string]*geval.Hole{}, Helpers: map[string]*geval.Hole{}}
+			t, err := tmp.ResolveTypeRef(ws[2], genArgs)
+			if err != nil || t.IsView() {
+				continue
+			}
+			if f := p.Facts[t.R()]; f != nil && f.Named == geval.No {
+				continue
+			}
+			decided := false
+			for k := range p.Opts() {
+				if strings.HasPrefix(k, ws[1]+"(") && strings.HasSuffix(k, "("+t.Desc+")") {
+					decided = true
+				}
+			}
+			if decided {
+				continue
+			}
+			key := "o-fork.UserMethod(" + ws[1] + "," + t.Desc + ")"
+			var next []map[string]geval.Tri
+			for _, m := range out {
+				for _, v := range []geval.Tri{geval.Yes, geval.No} {
+					n := map[string]geval.Tri{key: v}
+					for k, x := range m {
+						n[k] = x
+					}
+					next = append(next, n)
+				}
+			}
+			out = next
+			continue
+		}
 		if len(ws) != 2 || (ws[0] != "comparable" && ws[0] != "nilable" && ws[0] != "flat") {
 			continue
 		}
